@@ -319,7 +319,7 @@ theorem C14_no_link_state_independent (sem : Sem) (hr : sem.reads = []) (σ σ' 
 
 /-! ## Part C — the table `kinds`
 
-### C.1 hygiene, by kernel evaluation over the whole table (finite facts about the 224 hand-written kinds and their rows) -/
+### C.1 hygiene, by kernel evaluation over the whole table (finite facts about the 225 hand-written kinds and their rows) -/
 
 /-- Every kind: each row reads a declared link and lists one outcome per state code of it; accessor names and link names
     are unambiguous; every link has at least the two states unset / set. -/
@@ -442,7 +442,7 @@ def varKind : KindSpec := (findKind "Var").getD ⟨"", [], []⟩
 /-- `For`: links `init cond inc stmt(3 states)`. -/
 def forKind : KindSpec := (findKind "For").getD ⟨"", [], []⟩
 
-example : kinds.length = 224 := by decide +kernel
+example : kinds.length = 225 := by decide +kernel
 example : varKind ∈ kinds ∧ forKind ∈ kinds := by decide +kernel
 example : varKind.links.map (·.name) = ["init", "lexreg", "home", "langlinkage", "def"] := by decide +kernel
 
